@@ -961,7 +961,7 @@ Print Assumptions C03_pacman_run_snap_is_run.
 
 (* the snapshot clauses (301-304) of the component's checker hold of every record of the model's run:
    every recorded grid satisfies ginv, for every manager kind and call list.  (A full chk_model -- also
-   the step_count clauses 2612 / 2613 and the shared-cell clause 2611 on the model's own records -- is not
+   the step_count clauses 2612 / 2613 and the shared-cell clause 2611 lifted through the wire -- is not
    proved; those clauses are tied to the model by the runs.) *)
 Theorem C03_pacman_chk_model_partial : forall cf k cs m,
   ginv (ps_grid (m_sim m)) -> Forall ginv (ps_starts (m_sim m)) ->
@@ -1067,6 +1067,34 @@ Theorem C03_move_teleport_keep_active : forall f s i ca j,
   act (tgrid (teleport f s i)) j = act s j.
 Proof. intros f s i ca j. split; [apply move_drift_act | apply teleport_act]. Qed.
 Print Assumptions C03_move_teleport_keep_active.
+
+(* clause 2611: after a step that raised nothing pacman is never alive in a cell that also holds a
+   baddie (the second overlap loop either found none or killed pacman) -- every configuration, state,
+   action dictionary, either teleport *)
+Theorem C03_pacman_clause_2611 : forall f cf st acts,
+  ps_bad st = false -> ps_bad (pm_step_gen f cf st acts) = false ->
+  shares_b cf (ps_grid (pm_step_gen f cf st acts)) = false.
+Proof. exact pm_step_clause_2611. Qed.
+Print Assumptions C03_pacman_clause_2611.
+
+(* the per-record checker `chk_prec` of component 2602 accepts every transition of the model: given the
+   snapshot clauses 301-304 on the new grid (C03_pacman_chk_model_partial / ginvb), a step record is accepted
+   against the previous record's (active, step_count), and a reset record is accepted.  What is still not
+   proved is only the lift through the wire (dec_start of the encoded snapshot, the managers' call loop). *)
+Theorem C03_pacman_chk_prec_step : forall f cf st acts,
+  pac_not_baddie cf ->
+  ps_bad st = false -> ps_bad (pm_step_gen f cf st acts) = false ->
+  ginvb (ps_grid (pm_step_gen f cf st acts)) = 0 ->
+  chk_prec cf (Some (pac_active cf (ps_grid st), ps_count st)) 1
+           (ps_grid (pm_step_gen f cf st acts)) (ps_count (pm_step_gen f cf st acts)) = 0.
+Proof. exact pm_step_chk_prec. Qed.
+Print Assumptions C03_pacman_chk_prec_step.
+
+Theorem C03_pacman_chk_prec_reset : forall cf st prev,
+  ginvb (ps_grid (pm_reset cf st)) = 0 ->
+  chk_prec cf prev 0 (ps_grid (pm_reset cf st)) (ps_count (pm_reset cf st)) = 0.
+Proof. exact pm_reset_chk_prec. Qed.
+Print Assumptions C03_pacman_chk_prec_reset.
 
 (* the hypothesis holds of the packaged board's configuration *)
 Example C03_pacman_not_baddie_nonvacuous : pac_not_baddie px_cf.
